@@ -158,7 +158,10 @@ func (r *scanner) getTimeoutRevision() uint64 {
 		return 0
 	}
 
-	// todo: if it's need to lock here to make it called concurrent-safely?
+	// the whole scan of the queue is one critical section: two concurrent compactions must not
+	// both pop the record the other one has just looked at
+	r.compactHistories.mu.Lock()
+	defer r.compactHistories.mu.Unlock()
 	prev := &compactRecord{}
 	head := r.compactHistories.head()
 	for head != nil {
